@@ -89,6 +89,7 @@ Definition check (c : case) : bool :=
   | CShCanary init script canary =>
     match sh_run (mkSh init [] []) script with
     | Done s => Bool.eqb canary (existsb mentions_canary (sh_effects s))
-    | _ => false
+    | Unsup => true      (* an unquoted body the mini-sh does not model precedes the tag line: no claim *)
+    | Abort => false
     end
   end.
